@@ -315,7 +315,13 @@ def two_level(ctx, kit, rng):
                          "refs": [{"title": "Paper %d" % x, "authors": "A", "journal": "J %d" % x} for x in range(2)],
                          "features": [{"type": "CDS", "parts": [[ti, ti + len(t), 1]], "quals": {"uid": ["entry%d.cds" % j], "citation": ["[2]"]}}]}
                 erec = gen.make_record(espec) if j % 2 == 0 or kit == "ecoflex" else rec(sm, "entry%d" % j)
-                p = assemble(V1(rec(sv, "cv%d" % j)), [M1(erec)])   # default id/name: "assembly"
+                vent1, ment1 = V1(rec(sv, "cv%d" % j)), M1(erec)
+                p = assemble(vent1, [ment1])   # default id/name: "assembly"
+                # the same entry and vector objects serve a second transcription unit: the same call again must give the same plasmid
+                p_again = assemble(vent1, [ment1])
+                ctx.count("c11_same_objects_assembled_twice")
+                if str(p_again.seq) != str(p.seq):
+                    ctx.violation("second-use-of-the-same-parts-differs:" + name, "%s: assembling the same vector and entry objects a second time gives another sequence" % name, vector=sv, modules=[sm])
             except Exception as e:
                 ctx.violation("level-assembly-raises:%s:%s" % (name, type(e).__name__), "%s: %s" % (name, str(e)[:160]), vector=sv, modules=[sm])
                 return
